@@ -106,6 +106,11 @@ def render_pte_table(entries, style):
             ' ' if style.get('trailing_blank') else ''))
         if style.get('comments') and i % 3 == 1:
             lines.append('%s// generated' % sp)
+        if style.get('commented_elements') and i % 4 == 0:
+            # a retired entry that was commented out: not a declaration
+            lines.append('%s// { "%s", "retired %s", {1}, "old.cpp", 1 },' % (sp, e['pattern'][:8] or 'FFFFFFFF',
+                                                                             escape_c(e['fmt'])[:20]))
+            lines.append('%s/* { "FFFF****", "retired too", {}, "old.cpp", 2 }, */' % sp)
     lines.append('%s{ ""        , "The End" }' % sp)
     lines.append('};')
     return lines
@@ -126,6 +131,9 @@ def render_hlog_fields(fields, style):
         lines.append('%s{ %d, "%s" }%s%s' % (sp, size, name, comma, ' ' if style.get('trailing_blank') else ''))
         if style.get('comments') and i % 4 == 2:
             lines.append('%s/* counter */' % sp)
+        if style.get('commented_elements') and i % 3 == 0:
+            lines.append('%s// { 2, "hl_retired_counter" },' % sp)
+            lines.append('%s/* { 1, "hl_old_flag" }, */' % sp)
     lines.append('};')
     return lines
 
@@ -152,7 +160,7 @@ def render_header_file(pte_entries=None, hlog_fields=None, style=None):
 style_st = st.fixed_dictionaries({
     'static': st.booleans(), 'brace_same_line': st.booleans(), 'indent': st.integers(0, 6),
     'param_space': st.booleans(), 'trailing_blank': st.booleans(), 'comments': st.booleans(),
-    'no_last_comma': st.booleans(), 'preamble': st.booleans()})
+    'no_last_comma': st.booleans(), 'preamble': st.booleans(), 'commented_elements': st.booleans()})
 
 
 def read_shipped_pte_table(path):
